@@ -39,7 +39,9 @@ theorem min_score_headroom (p : Int) (hp : -(2 ^ 31 : Int) - (minScorePairwise +
 `num_cells() > MAX_CELLS` is not vacuous, the default k-mer match score is positive -/
 theorem max_cells_pos_and_default_match_pos : 0 < maxCells ∧ 0 < defaultMatchScore := by decide
 
-/-- non-vacuity of `min_score_headroom`: with the present constant the head-room is 429 496 730 -/
-example : -(2 ^ 31 : Int) - (minScorePairwise + minScorePairwise) ≤ -429496730 ∧ (-429496730 : Int) ≤ 0 := by decide
+/-- non-vacuity of `min_score_headroom`: the boundary penalty itself satisfies the hypotheses (with the present
+constant it is −429 496 730) -/
+example : -(2 ^ 31 : Int) - (minScorePairwise + minScorePairwise) ≤ -(2 ^ 31 : Int) - (minScorePairwise + minScorePairwise) ∧
+    -(2 ^ 31 : Int) - (minScorePairwise + minScorePairwise) ≤ 0 := by decide
 
 end RbV.Thm.GenLimits
